@@ -100,9 +100,47 @@ func init() {
 			for _, suf := range []string{"Ordered", "Unordered", "OrderedMID", "UnorderedMID"} {
 				wr := c.Fn("Stream.handleForwardTSNFor" + suf)
 				target := c.Fn("reassemblyQueue.forwardTSNFor" + suf)
-				pred := func(in ssa.Instruction) bool {
+				direct := func(in ssa.Instruction) bool {
 					ci, ok := in.(ssa.CallInstruction)
 					return ok && ci.Common().StaticCallee() == target
+				}
+				// also: helper(func(r){ r.forwardTSNFor<suf>(x) }) where the helper always calls the callback it is given
+				pred := func(in ssa.Instruction) bool {
+					if direct(in) {
+						return true
+					}
+					ci, ok := in.(ssa.CallInstruction)
+					if !ok {
+						return false
+					}
+					if _, isGo := in.(*ssa.Go); isGo {
+						return false
+					}
+					hlp := ci.Common().StaticCallee()
+					if hlp == nil || hlp.Blocks == nil || !c.P.inPkg(hlp) {
+						return false
+					}
+					for ai, a := range ci.Common().Args {
+						mc, isMc := a.(*ssa.MakeClosure)
+						if !isMc || ai >= len(hlp.Params) {
+							continue
+						}
+						cb, _ := mc.Fn.(*ssa.Function)
+						if cb == nil || cb.Blocks == nil || !entryMustPass(cb, direct) {
+							continue
+						}
+						param := hlp.Params[ai]
+						if entryMustPass(hlp, func(y ssa.Instruction) bool {
+							cj, isCall := y.(ssa.CallInstruction)
+							if _, isGo := y.(*ssa.Go); isGo {
+								return false
+							}
+							return isCall && !cj.Common().IsInvoke() && cj.Common().Value == ssa.Value(param)
+						}) {
+							return true
+						}
+					}
+					return false
 				}
 				ok, bad := MustPassFromBlock(wr.Blocks[0], pred, PathOpts{})
 				where := ""
@@ -528,6 +566,122 @@ func init() {
 				}
 			}
 			c.Check(n >= 1, "edmid-stores", c.P.Pos(fn.Pos()), fmt.Sprintf("%d store(s)", n), "edmid is never decoded")
+		}})
+
+	register(&Rule{ID: "C12.R14", Props: []string{"C12", "C04"}, Engine: "E2-sibling",
+		Title:   "the INIT parameter loop admits every parameter its header decoder admits: the smallest number of remaining bytes for which chunkInitCommon.unmarshal still parses a parameter is not larger than the smallest length paramHeader.unmarshal accepts (a value-less parameter such as Forward-TSN-Supported is exactly one header long; a strict comparison drops it when it is the last parameter, so the chunk does not decode to what it was built from and the peer's capability is not seen)",
+		MinInst: 1,
+		Run: func(c *RuleCtx) {
+			fn := c.Fn("chunkInitCommon.unmarshal")
+			ph := c.Fn("paramHeader.unmarshal")
+			// smallest len(raw) the header decoder accepts: the constant K of its "len(raw) < K → error" guard
+			hdrMin := int64(-1)
+			forEachInstr(ph, func(in ssa.Instruction) {
+				ifi, ok := in.(*ssa.If)
+				if !ok {
+					return
+				}
+				b, ok := ifi.Cond.(*ssa.BinOp)
+				if !ok || b.Op != token.LSS {
+					return
+				}
+				call, isCall := unconv(b.X).(*ssa.Call)
+				if !isCall {
+					return
+				}
+				if bi, isB := call.Call.Value.(*ssa.Builtin); !isB || bi.Name() != "len" || unconv(call.Call.Args[0]) != ssa.Value(ph.Params[1]) {
+					return
+				}
+				if k, isK := constInt(b.Y); isK && (hdrMin < 0 || k < hdrMin) {
+					hdrMin = k
+				}
+			})
+			if hdrMin < 0 {
+				c.Fail("header-minimum", c.P.Pos(ph.Pos()), "UNDECIDED: no 'len(raw) < K' guard found in paramHeader.unmarshal")
+				return
+			}
+			// in the loop: the guards that dominate the header decode and compare a non-constant with a constant
+			n := 0
+			ks := keyer{}
+			for _, g := range c.P.Region(fn) {
+				for _, call := range callsIn(g, ph) {
+					loopMin := int64(1) // "remaining > 0"
+					for _, ft := range DomFactsX(call.(ssa.Instruction).Block()) {
+						b, ok := ft.Cond.(*ssa.BinOp)
+						if !ok {
+							continue
+						}
+						op, x, y := b.Op, b.X, b.Y
+						if _, isK := constInt(x); isK {
+							op, x, y = swapOp(op), y, x
+						}
+						k, isK := constInt(y)
+						if !isK {
+							continue
+						}
+						if _, xk := constInt(x); xk {
+							continue
+						}
+						if !ft.Taken {
+							op = invertOp(op)
+						}
+						var m int64 = -1
+						switch op {
+						case token.GTR:
+							m = k + 1
+						case token.GEQ:
+							m = k
+						}
+						if m > loopMin {
+							loopMin = m
+						}
+					}
+					n++
+					c.Check(loopMin <= hdrMin, ks.key("loop-admits-header-only-parameter@"+c.P.FuncName(enclosingNamed(g))), c.Pos(call.(ssa.Instruction)),
+						fmt.Sprintf("a parameter is parsed whenever ≥ %d bytes remain (header decoder needs %d)", loopMin, hdrMin),
+						fmt.Sprintf("a parameter is parsed only when ≥ %d bytes remain although a complete parameter can be %d bytes long: a value-less parameter at the end of an INIT / INIT-ACK is silently dropped", loopMin, hdrMin))
+				}
+			}
+			c.Check(n >= 1, "param-loop-sites", c.P.Pos(fn.Pos()), fmt.Sprintf("%d header decode site(s) in the INIT parameter loop", n), "no paramHeader.unmarshal call under chunkInitCommon.unmarshal")
+		}})
+
+	register(&Rule{ID: "C04.R14", Props: []string{"C04", "C03"}, Engine: "E3-path",
+		Title:   "the client never waits for the handshake without a T1 timer: in handleInitAck every path that stops T1-init goes on to start T1-cookie before the handler returns — an INIT ACK that is rejected after T1-init was stopped (no State Cookie, negotiation error) leaves the association in COOKIE-WAIT with nothing armed: the INIT is never retransmitted, the retry budget never runs out and the connect call never returns",
+		MinInst: 1,
+		Run: func(c *RuleCtx) {
+			fn := c.Fn("Association.handleInitAck")
+			stop, start := c.Fn("rtxTimer.stop"), c.Fn("rtxTimer.start")
+			t1i, t1c := c.field("Association", "t1Init"), c.field("Association", "t1Cookie")
+			isStart := func(in ssa.Instruction) bool {
+				ci, ok := in.(ssa.CallInstruction)
+				return ok && ci.Common().StaticCallee() == start && mayBeTimerField(callArg(ci, 0), t1c, 0)
+			}
+			n := 0
+			ks := keyer{}
+			for _, g := range c.P.Region(fn) {
+				for _, cs := range callsIn(g, stop) {
+					if !mayBeTimerField(callArg(cs, 0), t1i, 0) {
+						continue
+					}
+					n++
+					ok, bad := MustPass(cs.(ssa.Instruction), isStart, nil)
+					if !ok && g != fn {
+						// stopped in a helper: judge from the helper's call site in the handler
+						for _, site := range c.P.CallSitesOf(g) {
+							if site.Instr.Parent() == fn {
+								ok, bad = MustPass(site.Instr.(ssa.Instruction), isStart, nil)
+							}
+						}
+					}
+					where := ""
+					if bad != nil {
+						where = c.Pos(bad)
+					}
+					c.Check(ok, ks.key("t1-init-stopped-only-when-t1-cookie-starts"), c.Pos(cs.(ssa.Instruction)), "every path from the stop of T1-init reaches the start of T1-cookie",
+						"T1-init is stopped and a path leaves handleInitAck without starting T1-cookie (exit "+where+"): the client stays in COOKIE-WAIT with no timer, its INIT is never retransmitted and the connect call never fails")
+				}
+			}
+			c.Check(n >= 1, "t1-init-stop-sites", c.P.Pos(fn.Pos()), fmt.Sprintf("%d stop site(s) of T1-init under handleInitAck", n), "handleInitAck never stops T1-init")
 		}})
 }
 
